@@ -21,6 +21,7 @@
 #include <rime/dict/table.h>
 #include <rime/resource.h>
 #include <rime/service.h>
+#include <rime/verif_deploy_hooks.h>
 
 namespace rime {
 
@@ -114,6 +115,7 @@ bool DictCompiler::Compile(const path& schema_file) {
   } else {
     LOG(ERROR) << "neither " << dict_name_ << ".dict.yaml nor " << dict_name_
                << ".table.bin exists.";
+    RIME_VERIF_DEPLOG("dict " + dict_name_ + " no_source_no_table");
     return false;
   }
   if (prism_->Exists() && prism_->Load()) {
@@ -142,6 +144,14 @@ bool DictCompiler::Compile(const path& schema_file) {
   if (options_ & kRebuildPrism) {
     rebuild_prism = true;
   }
+  RIME_VERIF_DEPLOG("dict " + dict_name_ + " from_source=" +
+                    std::to_string(build_table_from_source) +
+                    " files=" + std::to_string(dict_files.size()) +
+                    " rebuild_table=" + std::to_string(rebuild_table) +
+                    " rebuild_prism=" + std::to_string(rebuild_prism) +
+                    " dict_checksum=" + std::to_string(dict_file_checksum) +
+                    " schema_checksum=" +
+                    std::to_string(schema_file_checksum));
   Syllabary syllabary;
   if (rebuild_table) {
     EntryCollector collector;
@@ -173,6 +183,7 @@ bool DictCompiler::Compile(const path& schema_file) {
       else
         LOG(ERROR) << "neither pack source file '" << dict_file
                    << "' nor a prebuilt table exists";
+      RIME_VERIF_DEPLOG("pack " + pack_name + " no_source");
       continue;
     }
     if (!load_dict_settings_from_file(&settings, dict_file)) {
@@ -190,6 +201,9 @@ bool DictCompiler::Compile(const path& schema_file) {
     if (pack_table->Exists() && pack_table->Load()) {
       rebuild_pack = pack_table->dict_file_checksum() != pack_file_checksum;
     }
+    RIME_VERIF_DEPLOG("pack " + pack_name + " rebuild=" +
+                      std::to_string(rebuild_pack) + " pack_checksum=" +
+                      std::to_string(pack_file_checksum));
     if (rebuild_pack) {
       LOG(INFO) << "rebuilding pack '" << pack_name << "'";
       if (!BuildTable(table_index, collector, &settings, dict_files,
@@ -263,11 +277,13 @@ bool DictCompiler::BuildTable(int table_index,
       vocabulary.SortHomophones();
     }
     table->Remove();
+    RIME_VERIF_CRASHPOINT("DictCompiler::BuildTable:table-removed");
     if (!table->Build(collector.syllabary, vocabulary, collector.num_entries,
                       dict_file_checksum) ||
         !table->Save()) {
       return false;
     }
+    RIME_VERIF_CRASHPOINT("DictCompiler::BuildTable:table-saved");
   }
   // build reverse db for the primary table
   if (table_index == 0 &&
@@ -288,12 +304,14 @@ bool DictCompiler::BuildReverseDb(DictSettings* settings,
   // previous one in place would keep its valid format tag until the new
   // metadata is written.
   reverse_db.Remove();
+  RIME_VERIF_CRASHPOINT("DictCompiler::BuildReverseDb:reverse-removed");
   if (!reverse_db.Build(settings, collector.syllabary, vocabulary,
                         collector.stems, dict_file_checksum) ||
       !reverse_db.Save()) {
     LOG(ERROR) << "error building reversedb.";
     return false;
   }
+  RIME_VERIF_CRASHPOINT("DictCompiler::BuildReverseDb:saved");
   return true;
 }
 
@@ -360,11 +378,13 @@ bool DictCompiler::BuildPrism(const path& schema_file,
   // build .prism.bin
   {
     prism_->Remove();
+    RIME_VERIF_CRASHPOINT("DictCompiler::BuildPrism:prism-removed");
     if (!prism_->Build(syllabary, script.empty() ? nullptr : &script,
                        dict_file_checksum, schema_file_checksum) ||
         !prism_->Save()) {
       return false;
     }
+    RIME_VERIF_CRASHPOINT("DictCompiler::BuildPrism:prism-saved");
   }
 
   return true;
